@@ -57,4 +57,18 @@ CHECKS = {'C01': {'level': 'exploration',
                    {'run': '^TestC05Random$',
                     'checks': {'quick': 8000, 'thorough': 40000},
                     'shards': {'quick': 1, 'thorough': 16},
-                    'timeout': {'quick': 600, 'thorough': 3000}}]}}
+                    'timeout': {'quick': 600, 'thorough': 3000}}]},
+ 'C07': {'level': 'exploration',
+         'rule': 'model-based stateful histories over all column kinds (enum, bool, record, key, expire, late columns, custom merges), all Capacity '
+                 'options, 0..3 blocks with patterned bulk deletes and offset reuse; action snapshotRestore (up to 3 per history): Snapshot to a '
+                 'buffer, Restore into a fresh same-schema collection that draws its OWN capacity, bitmap indexes created before or after Restore, '
+                 'then the SAME state machine continues on the restored collection. Oracle: restored == original == reference model (rows at '
+                 'identical offsets, values bit-for-bit, Count, key lookups, index contents); afterwards every insert must return an offset the '
+                 'model considers free and model equality keeps holding; a final extra round trip. non-trivial = a snapshotted state had a row in '
+                 'block>=1 or a deleted/reused offset AND >=1 mutation happened after a restore; distinct = hash of the trace',
+         'assumptions': ['the restoring collection has the same columns (names, kinds, merge functions) as the original',
+                         'vacuum is parked (24h interval), so the expire column is an ordinary int64 column here'],
+         'tests': [{'run': '^TestC07$',
+                    'checks': {'quick': 250, 'thorough': 2500},
+                    'shards': {'quick': 1, 'thorough': 16},
+                    'timeout': {'quick': 900, 'thorough': 3400}}]}}
